@@ -114,6 +114,7 @@ impl Meta {
     //@trusted encode_page: Meta::encode_page returns some page image (its layout / round trip is the subject of Kani harness c18_meta_roundtrip, not of the frame argument)
     #[verifier::external_body]
     pub fn encode_page(self) -> (r: [u8; PAGE_SIZE])
+        ensures r@ == meta_image(self)
     { unimplemented!() }
 }
 
@@ -152,6 +153,10 @@ impl Pager {
 //@|     r is Ok ==> final(self).disk_synced(),
 //@prewrite "&self.file" => "&mut self.file"
 //@prewrite "self.file.sync_data()?;" => "vfile_sync_data(&mut self.file)?;"
+//@proof before 1 "write_page_raw(&self.file, BITMAP_PAGE_ID, &self.bitmap.data)?;" raw
+//@| let ghost b1 = self.bytes();
+//@proof after 1 "write_page_raw(&self.file, BITMAP_PAGE_ID, &self.bitmap.data)?;"
+//@| assert(self.bytes().subrange(0, 8192) =~= b1.subrange(0, 8192));
 //@end
 
 //@extract nervusdb-storage/src/pager.rs Pager::ensure_allocated ret r
@@ -241,21 +246,25 @@ impl Pager {
 //@| requires old(self).wf()
 //@| ensures frame_ok(*old(self), *final(self), ISet::<int>::empty()), final(self).bitmap == old(self).bitmap, final(self).next() == old(self).next(),
 //@|     forall|i: int| 16384 <= i < old(self).bytes().len() ==> #[trigger] final(self).bytes()[i] == old(self).bytes()[i],
+//@|     r is Ok ==> final(self).disk_synced(),
 //@end
 //@extract nervusdb-storage/src/pager.rs Pager::set_i2e_len ret r
 //@| requires old(self).wf()
 //@| ensures frame_ok(*old(self), *final(self), ISet::<int>::empty()), final(self).bitmap == old(self).bitmap, final(self).next() == old(self).next(),
 //@|     forall|i: int| 16384 <= i < old(self).bytes().len() ==> #[trigger] final(self).bytes()[i] == old(self).bytes()[i],
+//@|     r is Ok ==> final(self).disk_synced(),
 //@end
 //@extract nervusdb-storage/src/pager.rs Pager::set_next_internal_id ret r
 //@| requires old(self).wf()
 //@| ensures frame_ok(*old(self), *final(self), ISet::<int>::empty()), final(self).bitmap == old(self).bitmap, final(self).next() == old(self).next(),
 //@|     forall|i: int| 16384 <= i < old(self).bytes().len() ==> #[trigger] final(self).bytes()[i] == old(self).bytes()[i],
+//@|     r is Ok ==> final(self).disk_synced(),
 //@end
 //@extract nervusdb-storage/src/pager.rs Pager::set_index_catalog_root ret r
 //@| requires old(self).wf()
 //@| ensures frame_ok(*old(self), *final(self), ISet::<int>::empty()), final(self).bitmap == old(self).bitmap, final(self).next() == old(self).next(),
 //@|     forall|i: int| 16384 <= i < old(self).bytes().len() ==> #[trigger] final(self).bytes()[i] == old(self).bytes()[i],
+//@|     r is Ok ==> final(self).disk_synced(),
 //@end
 
 } // impl Pager
